@@ -302,6 +302,54 @@ def reportedAt (fmt : Fmt) (strLineno : Nat) (doc : List Char) (source obj : Loc
   reportInherited ⟨source.file, docObj strLineno doc source.obj.linenumber source.obj.isModule⟩ obj
     (secOf c.cls) (constructOffset fmt c.cls ((c.raw : Int) - (dropped doc : Nat)) c.j)
 
+/-! ### objects moved by a re-export
+
+`Documentable.description` (the file name in front of every warning) is `str(self.source_path)`;
+`source_path` is fixed when the object is created (`__init__`: given, or copied from the parent at
+that moment).  `Documentable.reparent` — what an `__all__` re-export does — changes `parent`,
+`parentMod` and `name`, never `source_path`, `docstring_lineno` or `linenumber`. -/
+
+structure Placed where
+  srcFile : Nat          -- `source_path`, recorded at creation
+  moduleFile : Nat       -- file of the module the object currently lives in (`self.module.source_path`)
+  obj : Obj
+  deriving Repr, Inhabited
+
+/-- `Documentable.reparent(new_parent, new_name)` as far as reporting is concerned -/
+def Placed.reparent (p : Placed) (newModuleFile : Nat) : Placed := { p with moduleFile := newModuleFile }
+
+/-- `Documentable.description` -/
+def Placed.descriptionFile (p : Placed) : Nat := p.srcFile
+
+/-- file and line of a report made on a (possibly moved) object -/
+def reportPlaced (p : Placed) (sec : Sec) (off : Int) : Nat × Line := (p.descriptionFile, report p.obj sec off)
+
+/-! ### reStructuredText fields: the three callers of `_SplitFieldsTranslator._add_field`
+
+`_add_field(tagname, arg, fbody, lineno)` stores `Field(…, lineno - 1)`.  Its callers hand it
+docutils' 1-based line of: the field node (`visit_field`: `node.line`), the first paragraph of a
+bullet item of a consolidated field (`handle_consolidated_bullet_list`: `fbody[0].line`), the term
+of a definition-list item (`handle_consolidated_definition_list`: `item[0].line`). -/
+
+inductive FieldCaller | visitField | bulletItem | deflistItem
+  deriving DecidableEq, Repr, Inhabited
+
+/-- the `lineno` argument: docutils' line of the node named above, whose first line is line `i`
+(0-based) of the cleaned docstring -/
+def callerLine (base : Int) : FieldCaller → Int → Int
+  | .visitField, i => i + base
+  | .bulletItem, i => i + base
+  | .deflistItem, i => i + base
+
+def addFieldLineno (lineno : Int) : Int := lineno - 1
+
+def rstFieldLineno (base : Int) (c : FieldCaller) (i : Int) : Int := addFieldLineno (callerLine base c i)
+
+/-- A cross-reference inside the *classifier* of a definition-list entry (`name : `Type``): the
+classifier's children are moved into a fresh document (`_add_field('type', arg, type_descr, lineno)`),
+so the reference's only ancestor is a document node without `line`; `get_lineno` ends in 0. -/
+def classifierXrefOffset : Int := getLineno none [⟨none, none⟩]
+
 /-- which planted constructs are reported: an epytext docstring with a (fatal) markup error is
 re-parsed as plain text, so only its errors are reported -/
 def reportedConstructs (fmt : Fmt) (cs : List Construct) : List Construct :=
